@@ -396,3 +396,24 @@ def c07_eol_norm(info):
         return eol(s).replace("\n", " ").replace("\t", " ")
     attrs2 = tuple(av(a) if i % 2 else a for i, a in enumerate(attrs))
     return (name, attrs2, tuple(c07_eol_norm(k) if isinstance(k, (list, tuple)) and not isinstance(k, str) else eol(k) for k in kids))
+
+
+def c07_cdata_sources():
+    """XML SOURCES whose SyncML <Data> payload becomes a CDATA node on the WBXML -> XML side and contains the characters that
+    are markup outside a CDATA section (& < > ]]> and an escaped entity text), with and without raw CR: list of
+    (kind, language id, xml bytes)"""
+    out = []
+    head = {2001: b'<!DOCTYPE SyncML PUBLIC "-//SYNCML//DTD SyncML 1.0//EN" "http://www.syncml.org/docs/syncml_represent_v10_20001207.dtd">',
+            2101: b'<!DOCTYPE SyncML PUBLIC "-//SYNCML//DTD SyncML 1.1//EN" "http://www.syncml.org/docs/syncml_represent_v11_20020213.dtd">',
+            2201: b'<!DOCTYPE SyncML PUBLIC "-//SYNCML//DTD SyncML 1.2//EN" "http://www.openmobilealliance.org/tech/DTD/OMA-TS-SyncML_RepPro_DTD-V1_2.dtd">'}
+    payloads = [b"a &amp; b", b"1 &lt; 2", b"x &gt; y", b"x]]&gt;y", b"]]&gt;]]&gt;", b"write &amp;amp;lt; to get &amp;lt; in HTML",
+                b"&lt;tag attr=&quot;v&quot;&gt;&amp;amp;&lt;/tag&gt;", b"&amp;#10; and &amp;lt;",
+                b"BEGIN:VCARD&#13;&#10;NOTE:a &amp; b &lt;c&gt;&#13;&#10;END:VCARD&#13;&#10;", b"lone&#13;cr &amp; ]]&gt; end&#13;"]
+    for lid in (2001, 2101, 2201):
+        for k, pay in enumerate(payloads):
+            mtype = [b"text/x-vcard", b"text/clear", b"text/x-vcalendar"][k % 3]
+            typed = (b'<Add><CmdID>1</CmdID><Meta><Type xmlns="syncml:metinf">' + mtype + b'</Type></Meta><Item><Data>' + pay + b'</Data></Item></Add>')
+            untyped = b'<Replace><CmdID>2</CmdID><Item><Data>' + pay + b'</Data></Item></Replace>'
+            body = typed if k % 2 == 0 else untyped
+            out.append(("cdata-markup", lid, b'<?xml version="1.0"?>' + head[lid] + b'<SyncML><SyncBody>' + body + b'</SyncBody></SyncML>'))
+    return out
